@@ -808,9 +808,20 @@ pub fn replay_entry_points(path: &str, prop: &str, seed: u64, rounds: usize, rep
             }
             let o = api::options(opt, None, false);
             let one = api::lzma_bytes_consumed(&data, &o);
-            for ep in v["eps"].as_array().unwrap() {
-                let ep = ep.as_str().unwrap();
+            let mut eps: Vec<String> = v["eps"].as_array().unwrap().iter().map(|x| x.as_str().unwrap().to_string()).collect();
+            // not an entry point of the model but the same rules: a raw decoder built with another size and told the
+            // size in effect through reset(Some(size))
+            eps.push("resized".into());
+            for ep in &eps {
+                let ep = ep.as_str();
                 let (out, consumed): (api::Outcome, Option<usize>) = match ep {
+                    "resized" => {
+                        let hl = opt.header_len();
+                        let built_with = if n % 2 == 0 { Some(3u64) } else { None };
+                        let dict_hdr = u32::from_le_bytes([data[1], data[2], data[3], data[4]]).max(4096);
+                        let (o, c) = api::raw_lzma_resized(&data[hl..], props.lc, props.lp, props.pb, dict_hdr, built_with, size_eff);
+                        (o, Some(c + hl))
+                    }
                     "plain" => {
                         let (o, c) = api::lzma_plain_consumed(&data);
                         (o, Some(c))
@@ -1127,7 +1138,7 @@ pub fn fab_probes(prop: &str, seed: u64, n: usize, rep: &mut Report) {
         let tail = if i % 2 == 0 { vec![Sym::Lit { b: b'a' }, Sym::Lit { b: b'b' }] } else { vec![Sym::Match { d: 1, n: 2 }, Sym::Lit { b: b'a' }, Sym::Lit { b: b'b' }] };
         for bad in bads {
             // ---- circular window: raw decoder (exact dict), one-shot and stream (header dict) ----
-            for (api_name, marker) in [("raw", true), ("raw", false), ("oneshot", true), ("stream", false)] {
+            for (api_name, marker) in [("raw", true), ("raw", false), ("oneshot", true), ("stream", false), ("stream-incomplete", false), ("stream-incomplete", true)] {
                 let mut cs = CS::default();
                 let mut probs = Probs::default();
                 let mut t2 = tail.clone();
@@ -1157,7 +1168,7 @@ pub fn fab_probes(prop: &str, seed: u64, n: usize, rep: &mut Report) {
                         };
                         if let crate::io::Caught::Done((true, true, n)) = reused {
                             rep.violation(prop, format!("raw dict {}: a copy beyond the produced output is accepted ({} bytes) by a decoder object that decoded another stream before and was reset", dict, n),
-                                json!({"kind": "bytes", "api": "raw-reused", "dict": dict, "props": p, "size": size, "data_hex": hex(&payload), "expect": "err"}));
+                                json!({"kind": "fab", "seed": seed, "n": n, "api": "raw-reused", "dict": dict, "props": p, "size": size, "data_hex": hex(&payload), "expect": "err"}));
                         }
                         (payload.clone(), o)
                     }
@@ -1170,7 +1181,11 @@ pub fn fab_probes(prop: &str, seed: u64, n: usize, rep: &mut Report) {
                     _ => {
                         let mut d = lzma_header(p, dict, Some(size.unwrap_or(u64::MAX)));
                         d.extend_from_slice(&payload);
-                        let r = api::stream_run(&d, &[d.len() / 2], &api::options(Opt::ReadFromHeader, None, false));
+                        // with allow_incomplete the final pass of finish() is lenient about missing input - not about
+                        // a copy that is already known to be out of the window
+                        let incomplete = api_name == "stream-incomplete";
+                        let cuts = if incomplete { vec![d.len().saturating_sub(1 + i % 19)] } else { vec![d.len() / 2] };
+                        let r = api::stream_run(&d, &cuts, &api::options(Opt::ReadFromHeader, None, incomplete));
                         (d, api::Outcome { verdict: r.verdict, out: r.out, msg: r.msg })
                     }
                 };
@@ -1193,7 +1208,7 @@ pub fn fab_probes(prop: &str, seed: u64, n: usize, rep: &mut Report) {
                     }
                 };
                 if let Some(b) = bad_res {
-                    rep.violation(prop, format!("{} dict {}: {}", api_name, dict, b), json!({"kind": "bytes", "api": api_name, "dict": dict, "props": p, "size": size, "data_hex": hex(&data), "expect": "err"}));
+                    rep.violation(prop, format!("{} dict {}: {}", api_name, dict, b), json!({"kind": "fab", "seed": seed, "n": n, "api": api_name, "dict": dict, "props": p, "size": size, "data_hex": hex(&data), "expect": "err"}));
                 }
             }
         }
@@ -1225,7 +1240,7 @@ pub fn fab_probes(prop: &str, seed: u64, n: usize, rep: &mut Report) {
                 rep.count("fab_probe_lzma2");
                 if o.verdict != Verdict::Err {
                     rep.violation(prop, format!("{}: a copy from an empty dictionary (first symbol after a dictionary reset) was accepted: {:?}, {} bytes", api_name, o.verdict, o.out.len()),
-                        json!({"kind": "bytes", "api": api_name, "data_hex": hex(&stream), "expect": "err"}));
+                        json!({"kind": "fab", "seed": seed, "n": n, "api": api_name, "data_hex": hex(&stream), "expect": "err"}));
                 }
             }
         }
@@ -1311,10 +1326,10 @@ pub fn fab_probes(prop: &str, seed: u64, n: usize, rep: &mut Report) {
         rep.count("fab_probe_carried");
         let _ = total2;
         match r {
-            crate::io::Caught::Panic(m) => rep.violation(prop, format!("raw decoder used twice: panic {}", m), json!({"kind": "bytes", "api": "raw-carried", "data_hex": hex(&payload2), "expect": "err"})),
+            crate::io::Caught::Panic(m) => rep.violation(prop, format!("raw decoder used twice: panic {}", m), json!({"kind": "fab", "seed": seed, "n": n, "api": "raw-carried", "data_hex": hex(&payload2), "expect": "err"})),
             crate::io::Caught::Done((true, out)) if out == fabricated && !out.is_empty() => {
                 rep.violation(prop, format!("raw decoder used twice without reset: a repeat copy with carried distance {} was accepted after only {} bytes of output; {} fabricated bytes delivered", dist, k, out.len()),
-                    json!({"kind": "bytes", "api": "raw-carried", "data_hex": hex(&payload2), "expect": "err"}));
+                    json!({"kind": "fab", "seed": seed, "n": n, "api": "raw-carried", "data_hex": hex(&payload2), "expect": "err"}));
             }
             crate::io::Caught::Done((true, _)) => rep.count("fab_probe_carried_other_ok"),
             crate::io::Caught::Done((false, _)) => rep.count("fab_probe_carried_refused"),
